@@ -371,6 +371,70 @@ def t_composition(ex):
     ex.oblige(f"{P}.lemma.every_entry_taken_when_all_workers_returned[lean4+Mathlib, no sorry, no axiom]", clean, kind="lemma")
 
 
+def t_regen_iter(ex):
+    """regen_iter, the worker function metadata regeneration hands to map_async: it has to take every item it is given (a worker that
+    dies early strands the rest of the queue) and report exactly the items whose regeneration failed"""
+    from pkgcore.operations import regen as RG
+    from pkgcore.package.errors import MetadataException
+    from pyvc import theory
+    P = "C41.regen_iter"
+    PKG = KRef("RegenPkg")
+    pkgs = KSeq(PKG, "list").fresh("pkgs")
+    n = pkgs.length()
+    OUTC = theory.ufun("regen_outcome", PKG.sort, z3.IntSort())   # 0 fine, 1 MetadataException, 2 ValueError, 3 OSError, 4 KeyError
+    Y = theory.ufun("failures_among_first", z3.IntSort(), z3.IntSort())
+    theory._add_axiom(("C41.Y", "base"), Y(0) == 0)
+
+    def unfold(k):
+        kt = k.t if isinstance(k, SInt) else z3.IntVal(k)
+        theory._add_axiom(("C41.Y", "unfold", z3.simplify(kt).get_id()),
+                          z3.Implies(z3.And(kt >= 0, kt < n.t), Y(kt + 1) == Y(kt) + z3.If(OUTC(pkgs.t[kt]) >= 2, 1, 0)))
+    g = Ghost(ex)
+    g.calls, g.reported = SInt(z3.IntVal(0)), SInt(z3.IntVal(0))
+    last = {}
+
+    def regen_func(it_, pkg):
+        ex.oblige(f"{P}.effect.items_are_taken_one_by_one_in_order", SBool(pkg.t == pkgs.at(g.calls).t), kind="effect-invariant")
+        g.calls = g.calls + 1
+        o = SInt(OUTC(pkg.t))
+        ex.assume(And(o >= 0, o <= 4))
+        if it_.truth(o == 0):
+            return None
+        if it_.truth(o == 1):
+            raise PyRaise(MetadataException(None, "keywords", "bad metadata"))
+        exc = ValueError("bad cache entry") if it_.truth(o == 2) else OSError(5, "io") if it_.truth(o == 3) else KeyError("_md5_")
+        last["pkg"], last["exc"] = pkg, exc
+        raise PyRaise(exc)
+
+    def on_yield(v):
+        okv = isinstance(v, tuple) and len(v) == 2
+        ex.oblige(f"{P}.effect.a_report_names_the_item_just_taken_and_its_own_exception",
+                  okv and last.get("pkg") is not None and v[1] is last.get("exc") and SBool(v[0].t == last["pkg"].t), kind="effect-invariant")
+        if okv and last.get("pkg") is not None:
+            ex.oblige(f"{P}.effect.only_failed_items_are_reported", SBool(OUTC(v[0].t) >= 2), kind="effect-invariant")
+        g.reported = g.reported + 1
+        last.clear()
+        return False
+
+    def inv(L, k):
+        unfold(k)
+        return And(g.calls == k, SBool(g.reported.t == Y(k.t if isinstance(k, SInt) else z3.IntVal(k))))
+
+    def on_havoc(it_):
+        g.calls, g.reported = KInt.fresh("calls"), KInt.fresh("reported")
+        last.clear()
+    it = Interp(ex, label=P, loops={("regen_iter", 0): LoopSpec(inv, on_havoc=on_havoc, out_kind=KSeq(KInt, "list"))})
+    it.yield_filter = on_yield
+    ex.inputs.update({"n_items": n})
+    out = call(it, it.target("src/pkgcore/operations/regen.py", "regen_iter"), pkgs, Model(regen_func, "regen_func"), object())
+    ex.oblige(f"{P}.raises.nothing_for_ordinary_failures_of_an_item", not out.raised, kind="exceptional-postcondition")
+    if out.raised:
+        return
+    unfold(n)
+    ex.oblige(f"{P}.ensures.every_item_given_is_taken", g.calls == n)
+    ex.oblige(f"{P}.ensures.exactly_the_failed_items_are_reported", SBool(g.reported.t == Y(n.t)))
+
+
 def _own_loops(clo):
     """ordinals of the loops of a function that are not inside a nested function, in source order"""
     import ast
@@ -443,5 +507,6 @@ def tasks():
         Task("C41.worker", t_worker, [(TP, "map_async")]),
         Task("C41.map_async", t_feeder, [(TP, "map_async"), (TP, "reclaim_threads")]),
         Task("C41.composition", t_composition, [(TP, "map_async")]),
+        Task("C41.regen_iter", t_regen_iter, [("src/pkgcore/operations/regen.py", "regen_iter")]),
     ] + [Task(f"C41.schedules.{k}", None, [(TP, "map_async")], enumerate=mk_enum(k)) for k in ("generator", "list", "none")] + [
     ]
